@@ -375,10 +375,12 @@ def resolve : Nat → Table → Req → Result
 
 /-! ## the specification: the documented lookup rule, without any index -/
 
+/-- `n-1, …, 0` -/
+def descFrom : Nat → List Nat
+  | 0 => []
+  | n + 1 => n :: descFrom n
 /-- `n, n-1, …, 0` -/
-def descRange : Nat → List Nat
-  | 0 => [0]
-  | n + 1 => (n + 1) :: descRange n
+def descRange (n : Nat) : List Nat := descFrom (n + 1)
 
 /-- what a resource answers by the documentation: leaf resources by their own path/method
 match; a prefixed sub-application takes over iff the path is its prefix or lies under it;
